@@ -72,8 +72,11 @@ theorem mem_frame_bits (frames : List (List Bool)) (rows cols : Nat) (hn : 0 < r
     memFrameBits (pack frames.flatten) rows cols 1 frames.length ((i : Int) + 1) false = .ok frames[i] := by
   have h1 : stdFrameIndex ((i : Int) + 1) false frames.length = .ok (i : Int) := by
     rw [stdFrameIndex_ok_iff]; simp; omega
-  unfold memFrameBits memRaw decodeBits
+  unfold memFrameBits Skel.frameBits Skel.index
+  simp only [singleSkel, singleStdArgs, singleRawArgs, singleDecodeIndex, bind, Except.bind]
   rw [h1]
+  simp only []
+  unfold memRaw decodeBits
   simp only [bind, Except.bind]
   rw [rawFrameRange_bit (i : Int) ((rows * cols : Nat) : Int) rows cols (by push_cast; rfl) (by omega)]
   simp only [bitSlice_eq]
@@ -113,13 +116,19 @@ theorem lazy_frame_bits (frames : List (List Bool)) (rows cols : Nat) (hn : 0 < 
   have h2 : lazyIndexGuard (i : Int) frames.length = .ok (i : Int) := by
     rw [lazyIndexGuard_ok_iff]; omega
   have hm := mem_frame_bits frames rows cols hn hlen i hi
-  unfold memFrameBits memRaw at hm
+  unfold memFrameBits Skel.frameBits Skel.index at hm
+  simp only [singleSkel, singleStdArgs, singleRawArgs, singleDecodeIndex, bind, Except.bind] at hm
   rw [h1] at hm
+  simp only [] at hm
+  unfold memRaw at hm
   simp only [bind, Except.bind] at hm
   rw [rawFrameRange_bit (i : Int) ((rows * cols : Nat) : Int) rows cols (by push_cast; rfl) (by omega)] at hm
   dsimp only at hm
-  unfold lazyFrameBits lazyRaw
+  unfold lazyFrameBits Skel.frameBits Skel.index
+  simp only [singleSkel, singleStdArgs, singleRawArgs, singleDecodeIndex, bind, Except.bind]
   rw [h1]
+  simp only []
+  unfold lazyRaw
   simp only [bind, Except.bind, h2]
   have hb : lazyBytesPerFrame ((rows : Int) * cols * 1) 1 "MONOCHROME2" rows cols
       = .ok (Int.fdiv ((rows : Int) * cols * 1) 8 + (if (decide (Int.fmod ((rows : Int) * cols * 1) 8 > 0)) then 1 else 0)) := by
